@@ -12,7 +12,7 @@
 EXTENDS Naturals, Sequences, FiniteSets, TLC
 CONSTANTS Closers,        \* set of closer ids
           Graceful,       \* Graceful[i] : closer i calls GracefulClose
-          InCallback,     \* InCallback[i] : closer i runs inside the connection-state handler
+          InCallback,     \* InCallback[i] : the callback stream ("state", "cand", "pair") inside whose handler closer i runs; "" = an API goroutine
           BlockedWrite,   \* the loop is running a task that sits in a socket write when the close starts
           Gathering,      \* a gatherer goroutine is running when the close starts
           SlowHandler     \* a handler invocation is in progress when the close starts
@@ -26,16 +26,19 @@ VARIABLES pc,         \* pc[i] : closer i
           callers,    \* callers[c] \in {"blocked", "err"} for c \in {"dial", "read", "run"}
           queue, drainer, nclosed, delivered
 vars == <<pc, onceTaken, done, sockClosed, loop, gath, gcancel, recv, bufClosed, callers, queue, drainer, nclosed, delivered>>
-CallerIds == {"dial", "read", "run"}
+CallerIds == {"dial", "await", "read", "write", "run"}
+Streams == {"state", "cand", "pair"}      \* the three notifiers; only the connection-state stream receives an event (Closed) from the close itself
 Init == /\ pc = [i \in Closers |-> "start"] /\ onceTaken = FALSE /\ done = FALSE /\ sockClosed = FALSE
         /\ loop = (IF BlockedWrite THEN "task" ELSE "idle")
         /\ gath = (IF Gathering THEN "running" ELSE "none") /\ gcancel = FALSE
         /\ recv = "reading" /\ bufClosed = FALSE
         /\ callers = [c \in CallerIds |-> "blocked"]
-        /\ queue = <<>> /\ drainer = (IF SlowHandler \/ \E i \in Closers : InCallback[i] THEN "handler" ELSE "idle")
+        /\ queue = <<>>
+        /\ drainer = [s \in Streams |-> IF (s = "state" /\ SlowHandler) \/ \E i \in Closers : InCallback[i] = s THEN "handler" ELSE "idle"]
         /\ nclosed = FALSE /\ delivered = <<>>
 \* ---------------- closers
-HandlerCloserDone == \A i \in Closers : InCallback[i] => pc[i] = "ret"
+HandlerCloserDone(s) == \A i \in Closers : InCallback[i] = s => pc[i] = "ret"
+AllIdle == \A s \in Streams : drainer[s] = "idle"
 CloserOnce(i) == /\ pc[i] = "start"
                  /\ IF onceTaken THEN UNCHANGED <<onceTaken, done, sockClosed>>
                     ELSE onceTaken' = TRUE /\ done' = TRUE /\ sockClosed' = TRUE   \* closeOnce: err.Store, close(done), preStop = abort candidate I/O
@@ -46,7 +49,7 @@ CloserLoopDone(i) == /\ pc[i] = "wait" /\ loop = "exited" /\ pc' = [pc EXCEPT ![
 CloserNotif(i) == /\ pc[i] = "notif" /\ nclosed' = TRUE
                   /\ pc' = [pc EXCEPT ![i] = IF Graceful[i] THEN "gwait" ELSE "ret"]
                   /\ UNCHANGED <<onceTaken, done, sockClosed, loop, gath, gcancel, recv, bufClosed, callers, queue, drainer, delivered>>
-CloserGWait(i) == /\ pc[i] = "gwait" /\ drainer = "idle" /\ queue = <<>> /\ pc' = [pc EXCEPT ![i] = "ret"]
+CloserGWait(i) == /\ pc[i] = "gwait" /\ AllIdle /\ queue = <<>> /\ pc' = [pc EXCEPT ![i] = "ret"]
                   /\ UNCHANGED <<onceTaken, done, sockClosed, loop, gath, gcancel, recv, bufClosed, callers, queue, drainer, nclosed, delivered>>
 \* ---------------- the task loop
 Submitting == (gath = "submitting") \/ (recv = "submitting") \/ (callers["run"] = "blocked")
@@ -79,33 +82,34 @@ RecvPacket == /\ recv = "reading" /\ ~sockClosed /\ recv' = "submitting"
 RecvStop == /\ recv \in {"reading", "submitting"} /\ sockClosed /\ recv' = "exited"   \* read fails / Run(ctx = candidate) is cancelled
             /\ UNCHANGED <<pc, onceTaken, done, sockClosed, loop, gath, gcancel, bufClosed, callers, queue, drainer, nclosed, delivered>>
 CallerWakes(c) == /\ callers[c] = "blocked"
-                  /\ CASE c = "dial" -> done [] c = "read" -> bufClosed [] c = "run" -> done
+                  /\ IF c = "read" THEN bufClosed ELSE done     \* Conn.Read waits on the buffer; Dial/AwaitConnect, a blocked loop.Run and a writer see the closed loop
                   /\ callers' = [callers EXCEPT ![c] = "err"]
                   /\ UNCHANGED <<pc, onceTaken, done, sockClosed, loop, gath, gcancel, recv, bufClosed, queue, drainer, nclosed, delivered>>
-HandlerStart == /\ drainer = "idle" /\ queue # <<>> /\ drainer' = "handler" /\ delivered' = Append(delivered, Head(queue)) /\ queue' = Tail(queue)
+HandlerStart == /\ drainer["state"] = "idle" /\ queue # <<>> /\ drainer' = [drainer EXCEPT !["state"] = "handler"]
+                /\ delivered' = Append(delivered, Head(queue)) /\ queue' = Tail(queue)
                 /\ UNCHANGED <<pc, onceTaken, done, sockClosed, loop, gath, gcancel, recv, bufClosed, callers, nclosed>>
-HandlerEnd == /\ drainer = "handler" /\ HandlerCloserDone /\ drainer' = "idle"
+HandlerEnd(s) == /\ drainer[s] = "handler" /\ HandlerCloserDone(s) /\ drainer' = [drainer EXCEPT ![s] = "idle"]
               /\ UNCHANGED <<pc, onceTaken, done, sockClosed, loop, gath, gcancel, recv, bufClosed, callers, queue, nclosed, delivered>>
 Next == \/ \E i \in Closers : CloserOnce(i) \/ CloserLoopDone(i) \/ CloserNotif(i) \/ CloserGWait(i)
         \/ LoopTakeTask \/ TaskFinish \/ LoopExit \/ OcGather \/ OcCands \/ OcBuf \/ OcState
         \/ GatherStep \/ GatherRefused \/ RecvPacket \/ RecvStop
         \/ \E c \in CallerIds : CallerWakes(c)
-        \/ HandlerStart \/ HandlerEnd
+        \/ HandlerStart \/ \E s \in Streams : HandlerEnd(s)
 \* a task taken by the loop runs to completion at once (it is not the blocked write); modelled inside LoopTakeTask
 Fair == /\ \A i \in Closers : WF_vars(CloserOnce(i)) /\ WF_vars(CloserLoopDone(i)) /\ WF_vars(CloserNotif(i)) /\ WF_vars(CloserGWait(i))
         /\ WF_vars(TaskFinish) /\ WF_vars(LoopExit) /\ WF_vars(OcGather) /\ WF_vars(OcCands) /\ WF_vars(OcBuf) /\ WF_vars(OcState)
         /\ WF_vars(GatherStep) /\ WF_vars(GatherRefused) /\ WF_vars(RecvStop)
         /\ \A c \in CallerIds : WF_vars(CallerWakes(c))
-        /\ WF_vars(HandlerStart) /\ WF_vars(HandlerEnd)
+        /\ WF_vars(HandlerStart) /\ \A s \in Streams : WF_vars(HandlerEnd(s))
 Spec == Init /\ [][Next]_vars /\ Fair
 \* ---------------- properties (C08)
 AllReturned == \A i \in Closers : pc[i] = "ret"
 CloseReturns == <>AllReturned
 Unblocked == <>[](\A c \in CallerIds : callers[c] # "blocked")
-NoLeak == <>[](loop = "exited" /\ recv = "exited" /\ gath \in {"none", "exited"} /\ drainer = "idle")
+NoLeak == <>[](loop = "exited" /\ recv = "exited" /\ gath \in {"none", "exited"} /\ AllIdle)
 RetImpliesLoopExited == (\E i \in Closers : pc[i] \in {"notif", "gwait", "ret"}) => loop = "exited"
 LoopExitedImpliesQuiet == loop = "exited" => (recv = "exited" /\ gath \in {"none", "exited"} /\ bufClosed /\ done)
 NoTaskAfterReturn == (\E i \in Closers : pc[i] = "ret") => loop = "exited"
-GracefulQuiet == \A i \in Closers : (pc[i] = "ret" /\ Graceful[i] /\ ~InCallback[i]) => (drainer = "idle" /\ queue = <<>>)
+GracefulQuiet == \A i \in Closers : (pc[i] = "ret" /\ Graceful[i] /\ InCallback[i] = "") => (AllIdle /\ queue = <<>>)
 ClosedLast == (delivered # <<>> /\ \E k \in 1..Len(delivered) : delivered[k] = "Closed") => delivered[Len(delivered)] = "Closed"
 ====
